@@ -76,9 +76,15 @@ Section WithValid.
     | (m, b) :: r => if fname_eqb n m then Some b else find_name n r
     end.
 
+  (* the ClientConf entry must agree exactly; every other observed file must be
+     one the model has, with the same content (the model may have further
+     temporaries: an implementation that cleans up after a failure is fine) *)
   Definition listing_matches (obs : list (fname * bspec)) (l : list (fname * bytes)) : bool :=
-    (length obs =? length l)%nat &&
-    forallb (fun e => match find_name (fst e) l with Some b => bspec_matches (snd e) b | None => false end) obs.
+    forallb (fun e => match find_name (fst e) l with Some b => bspec_matches (snd e) b | None => false end) obs &&
+    match find_name Target l with
+    | Some _ => match find_name Target (map (fun e => (fst e, bspec_val (snd e))) obs) with Some _ => true | None => false end
+    | None => true
+    end.
 
   Definition same_dir (o : op cfgR) (w : worldR) : bool :=
     match o with SetDir d => d =? cwd w | _ => false end.
